@@ -539,7 +539,8 @@ func runC14(r *an.Run) {
 			mustDoUnless(o, h, "confsByInitialHeight insert", idxAssign(h, ".confsByInitialHeight"), []an.Site{exit},
 				an.IsNil(an.FieldPath(an.LocalNamed("confSet"), "details"), false, "confSet.details != nil (address reuse)"))
 			k := p.Func(tn + "handleSpendDetailsAtTip")
-			mustDoUnless(o, k, "spendsByHeight insert", idxAssign(k, ".spendsByHeight"), []an.Site{{Fn: k, V: k.Graph().Exit, Node: k.Body}})
+			mustDoUnless(o, k, "spendsByHeight insert", idxAssign(k, ".spendsByHeight"), []an.Site{{Fn: k, V: k.Graph().Exit, Node: k.Body}},
+				an.IsNil(an.FieldPath(an.LocalNamed("spendSet"), "details"), false, "spendSet.details != nil (script reuse)"))
 			for _, name := range []string{"CommitSpendHint", "CommitConfirmHint"} {
 				c := p.Func("channeldb.HeightHintCache." + name)
 				for _, lf := range c.Lits {
@@ -551,4 +552,6 @@ func runC14(r *an.Run) {
 				}
 			}
 		})
+
+	c14Siblings(r)
 }
